@@ -1,7 +1,7 @@
 //@ kani actions_enum
 //@ append src/find/mod.rs
 //@ module verif_enum_actions
-//@ harness e_exec_single kind=enum props=C09 thorough_bound=<<every set of three of the eight names x the same templates, statuses and modes>> bound=<<a directory with three files (three fixed sets covering all eight names) whose names are drawn from {plain, 'a b', it's, new-line, {}, -dash, star*, the non-UTF-8 byte 0xff} x argument templates {}, a{}b, {}{}, x and pairs of them x CMD exit status 0 or 3, or a CMD that does not exist x -exec / -execdir, real processes recording their argv and working directory>> label=<<-exec CMD ARGS ; runs CMD once per file in visit order with every {} in every argument replaced by the path (./basename and the parent as working directory for -execdir), every argument one argv element byte for byte; the action is true iff CMD exits 0; find's exit status stays 0>>
+//@ harness e_exec_single kind=enum props=C09 thorough_bound=<<every set of three of the eight names x the same templates, statuses and modes>> bound=<<a directory with three files (three fixed sets covering all eight names) whose names are drawn from {plain, 'a b', it's, new-line, {}, -dash, star*, the non-UTF-8 byte 0xff} x argument templates {}, a{}b, {}{}, x, a literal + and pairs of them x CMD exit status 0 or 3, or a CMD that does not exist x the directory or the three files themselves as starting points x -exec / -execdir, real processes recording their argv and working directory>> label=<<-exec CMD ARGS ; runs CMD once per file in visit order with every {} in every argument replaced by the path (./basename and the parent as working directory for -execdir), every argument one argv element byte for byte; the action is true iff CMD exits 0; find's exit status stays 0>>
 //@ harness e_exec_plus kind=enum props=C08 thorough_bound=<<every set of three of the eight names x -quit position x -exec / -execdir>> bound=<<the same directory of three files (three fixed sets) x an optional -quit after the first, second or third file x -exec / -execdir, real processes>> label=<<-exec CMD {} + passes every path on which the action is reached exactly once, after the fixed arguments, in visit order, also when -quit ends the walk; -execdir batches contain ./basename entries of one directory and run there; the action is always true>>
 //@ harness e_exec_dirs kind=enum props=C08 bound=<<a tree r/{A/{a1,a2},B/{b1},C/{c1,c2}}; -execdir CMD {} + with -mindepth absent, 1 or 2, and -exec CMD {} + over every non-empty ordered selection of up to three of the starting points r/A, r/B, r/C; real processes>> label=<<each -execdir invocation runs in one directory and contains only ./basename entries of that directory; over all invocations every reached file is delivered exactly once, also across several starting points>>
 //@ harness e_quit_status kind=enum props=C01,C18 bound=<<one or two starting points x an action before -quit that succeeds (-print0) or fails (-fprint /dev/full) on the first entry>> label=<<once -quit is evaluated nothing further is evaluated for that entry or any later entry or starting point, whether or not an earlier action on the same entry failed; the exit status still reports the failure>>
@@ -56,9 +56,12 @@ mod verif_enum_actions {
         let t = d.join("t");
         std::fs::create_dir(&t).unwrap();
         let names = three_files(&t);
-        let templates = ["{}", "a{}b", "{}{}", "x"];
+        let templates = ["{}", "a{}b", "{}{}", "x", "+"];
         let nt = 1 + pick(2);
-        let tpl: Vec<&str> = (0..nt).map(|_| templates[pick(4)]).collect();
+        let tpl: Vec<&str> = (0..nt).map(|_| templates[pick(5)]).collect();
+        // "{} +" is the other form of the action; a "+" anywhere else is ordinary text
+        if tpl.len() == 2 && tpl[0] == "{}" && tpl[1] == "+" { let _ = std::fs::remove_dir_all(&d); kani::assume(false); }
+        let file_roots = pick(2) == 1; // the files themselves are the starting points: depth-0 entries whose path has a directory part
         let status = [0, 3, -1][pick(3)]; // -1: CMD does not exist
         let dir_mode = pick(2) == 1;
         let log = d.join("log");
@@ -66,7 +69,11 @@ mod verif_enum_actions {
         // records: working directory, then every argument in <...>, NUL-terminated record (no braces in the script: {} would be substituted)
         let script = format!("pwd >> '{l}'; for a; do printf '<%s>' \"$a\" >> '{l}'; done; printf '\\0' >> '{l}'; exit {status}", l = log.display());
         let ts = t.to_str().unwrap();
-        let mut args: Vec<&str> = vec!["find", ts, "-sorted", "-type", "f", if dir_mode { "-execdir" } else { "-exec" }];
+        let root_paths: Vec<String> = names.iter().map(|n| String::from_utf8_lossy(&join(&t, n)).into_owned()).collect();
+        if file_roots && names.iter().any(|n| std::str::from_utf8(n).is_err()) { let _ = std::fs::remove_dir_all(&d); kani::assume(false); } // argv is text
+        let mut args: Vec<&str> = vec!["find"];
+        if file_roots { for r in &root_paths { args.push(r); } } else { args.push(ts); }
+        args.extend_from_slice(&["-sorted", "-type", "f", if dir_mode { "-execdir" } else { "-exec" }]);
         if status < 0 { args.push(missing.to_str().unwrap()); } else { args.extend_from_slice(&["sh", "-c", &script, "sh"]); }
         args.extend_from_slice(&tpl);
         args.extend_from_slice(&[";", "-print0"]);
